@@ -406,7 +406,7 @@ fn state_of<K: PKey, V: PVal>(m: &PM<K, V>) -> String {
 }
 
 /// What a short-circuiting consumer does.
-#[derive(Clone, Copy, PartialEq)]
+#[derive(Clone, Copy, PartialEq, Debug)]
 enum Mode {
     /// `for_each`: never full
     All,
@@ -416,6 +416,8 @@ enum Mode {
     Find,
     /// the parallel iterator is dropped without being driven
     Drop,
+    /// `collect::<Vec<_>>()` (consults `opt_len`: the indexed-collect fast path), then everything is kept
+    Collect,
     /// `for_each` whose closure panics when it has received `stop` elements (unwinding through
     /// `fold_with` drops the producer; rayon re-raises the panic once all leaves are done)
     Panic,
@@ -427,12 +429,16 @@ fn mode_of(s: &str) -> Mode {
         "find" => Mode::Find,
         "drop" => Mode::Drop,
         "panic" => Mode::Panic,
+        "collect" => Mode::Collect,
         _ => Mode::All,
     }
 }
 
 /// Drive an owning parallel iterator with an early-stopping consumer; returns the `(kid, vid)` of the
 /// elements the consumer kept (they are forgotten, so they never reach the drop log).
+/// Marker pushed into the consumed list when a parallel iterator panicked on its own.
+const PANICKED: (u64, u64) = (u64::MAX, u64::MAX);
+
 fn drive<T: Send, I: ParallelIterator<Item = T>>(
     threads: usize,
     make: impl FnOnce() -> I + Send,
@@ -448,9 +454,15 @@ fn drive<T: Send, I: ParallelIterator<Item = T>>(
         std::mem::forget(x);
         jitter(id.0);
     };
-    let _ = catch_unwind(AssertUnwindSafe(|| pool(threads).install(|| {
+    let res = catch_unwind(AssertUnwindSafe(|| pool(threads).install(|| {
         let it = make();
         match mode {
+            Mode::Collect => {
+                let v: Vec<T> = it.collect();
+                for x in v {
+                    keep(x);
+                }
+            }
             Mode::Panic => it.for_each(|x| {
                 keep(x);
                 if cnt.fetch_add(1, Ordering::SeqCst) + 1 == stop {
@@ -479,7 +491,22 @@ fn drive<T: Send, I: ParallelIterator<Item = T>>(
             Mode::Drop => drop(it),
         }
     })));
-    consumed.into_inner().unwrap_or_else(|e| e.into_inner())
+    let mut consumed = consumed.into_inner().unwrap_or_else(|e| e.into_inner());
+    if res.is_err() && mode != Mode::Panic {
+        // nothing the consumer does panics in this mode: the panic came out of the parallel iterator
+        consumed.push(PANICKED);
+    }
+    consumed
+}
+
+/// `par_drain` of a collection that is empty (possibly owning an allocation) collected into a `Vec` (rayon's
+/// `opt_len`-aware sink): yields nothing, as the sequential `drain` does, and does not panic.
+fn drain_again<T: Send, I: ParallelIterator<Item = T>>(threads: usize, what: &str, make: impl FnOnce() -> I + Send) -> Result<(), String> {
+    match catch_unwind(AssertUnwindSafe(|| pool(threads).install(|| make().collect::<Vec<T>>().len()))) {
+        Ok(0) => Ok(()),
+        Ok(n) => Err(format!("{}: par_drain of the emptied collection yielded {} elements", what, n)),
+        Err(_) => Err(format!("{}: par_drain().collect::<Vec<_>>() of the emptied collection panicked (sequential drain yields nothing)", what)),
+    }
 }
 
 /// "Every element consumed or dropped exactly once": `stored` = ids held before, `consumed` = kept by
@@ -496,6 +523,9 @@ fn ledger(
 ) -> Option<String> {
     let st: BTreeSet<(u64, u64)> = stored.iter().copied().collect();
     let mut seen = BTreeSet::new();
+    if consumed.contains(&PANICKED) {
+        return Some(format!("{}: the parallel iterator panicked (consumer mode {:?}, {} stored)", what, mode, stored.len()));
+    }
     for c in consumed {
         if !st.contains(c) {
             return Some(format!("{}: consumer received {}.{} which was not stored", what, c.0, c.1));
@@ -506,7 +536,7 @@ fn ledger(
     }
     let n = stored.len() as u64;
     let want_ok = match mode {
-        Mode::All => consumed.len() as u64 == n,
+        Mode::All | Mode::Collect => consumed.len() as u64 == n,
         Mode::Tfe | Mode::Panic => consumed.len() as u64 >= stop.min(n),
         Mode::Find => consumed.len() as u64 == if n >= stop { 1 } else { 0 },
         Mode::Drop => consumed.is_empty(),
@@ -774,6 +804,15 @@ impl<K: PKey, V: PVal> ParRunner<K, V> {
                 let m = self.get(tgt);
                 let after = m.verif_dump();
                 check!(m.len() == 0 && m.iter().next().is_none(), "{}: collection not empty afterwards", name);
+                if name == "par_drain" && after.ctrl.iter().all(|&b| b == 0xFF) {
+                    // idempotent on an all-EMPTY table: no state change, no element
+                    let m2 = target!();
+                    if let Err(why) = drain_again(threads, "map", || m2.par_drain()) {
+                        return Some(Err(why));
+                    }
+                    take_events();
+                }
+                let m = self.get(tgt);
                 if name == "par_drain" && mode == Mode::Drop && before.items == 0 {
                     // `RawParDrain::drop` = `clear()`, which returns early on an empty table
                     check!(after == before, "par_drain dropped undriven on an empty table changed it");
@@ -839,6 +878,7 @@ impl<K: PKey, V: PVal> ParRunner<K, V> {
                                 if s.len() != 0 || s.iter().next().is_some() {
                                     return Err("set par_drain: not empty afterwards".into());
                                 }
+                                drain_again(threads, "set", || s.par_drain())?;
                                 c
                             } else {
                                 let old = std::mem::replace(&mut s, HashSet::with_hasher_in(IdBuild, GAlloc));
@@ -855,6 +895,7 @@ impl<K: PKey, V: PVal> ParRunner<K, V> {
                                 if t.len() != 0 || t.iter().next().is_some() {
                                     return Err("table par_drain: not empty afterwards".into());
                                 }
+                                drain_again(threads, "table", || t.par_drain())?;
                                 c
                             } else {
                                 let old = std::mem::replace(&mut t, HashTable::new_in(GAlloc));
@@ -1346,7 +1387,7 @@ pub fn next_op(g: &mut Gen, r: &dyn Runner) -> String {
             4 => 1 + g.rng.below(len + 1),
             _ => 1 + len / 2,
         };
-        let mode = *g.rng.pick(&["all", "tfe", "tfe", "find", "find", "drop", "panic"]);
+        let mode = *g.rng.pick(&["all", "collect", "collect", "tfe", "tfe", "find", "find", "drop", "panic"]);
         let x = g.rng.below(1000);
         if x < 70 {
             let k = if g.rng.chance(1, 2) { g.rng.below(st.span) } else { 5_000_000 + g.rng.below(1 << 30) };
